@@ -87,6 +87,13 @@ func (*prop) Cases(seed int64, tier string) []core.Case {
 		cs = append(cs, core.MkCase("random", map[string]int{"n": randN}))
 	}
 	cs = append(cs, core.MkCase("order", nil))
+	nfirst := 2
+	if tier == "thorough" {
+		nfirst = 12
+	}
+	for i := 0; i < nfirst; i++ {
+		cs = append(cs, core.MkCase("first-use", map[string]int{"procs": []int{4, 16, 2}[i%3], "g": []int{48, 16, 96}[i%3], "children": 6}))
+	}
 	for _, procs := range []int{2, 4, 16} {
 		for k := 0; k < 4; k++ {
 			cs = append(cs, core.MkCase("concurrent", map[string]int{"procs": procs, "rounds": rounds, "g": 32}))
@@ -455,6 +462,124 @@ func init() {
 	})
 }
 
+type firstUseArg struct {
+	Procs  int      `json:"procs"`
+	G      int      `json:"g"`
+	Inputs []string `json:"inputs"`
+}
+
+func init() {
+	// the process's very FIRST uses of the inflector happen concurrently: G goroutines leave a barrier together, each
+	// walks the inputs from a different offset. Output: per goroutine and input the two results (or the panic).
+	core.RegisterHelper("c20first", func(argFile string) {
+		b, err := os.ReadFile(argFile)
+		if err != nil {
+			panic(err)
+		}
+		var a firstUseArg
+		if err := json.Unmarshal(b, &a); err != nil {
+			panic(err)
+		}
+		runtime.GOMAXPROCS(a.Procs)
+		out := make([][][2]string, a.G)
+		start := make(chan struct{})
+		var wg sync.WaitGroup
+		for g := 0; g < a.G; g++ {
+			out[g] = make([][2]string, len(a.Inputs))
+			wg.Add(1)
+			go func(g int) {
+				defer wg.Done()
+				<-start
+				for k := range a.Inputs {
+					i := (k + g*7) % len(a.Inputs)
+					s := a.Inputs[i]
+					if pk, pv, _ := core.Guard(func() { out[g][i][0] = inflector.Pluralize(s) }); pk {
+						out[g][i][0] = fmt.Sprintf("\x00PANIC: %v", pv)
+					}
+					if pk, pv, _ := core.Guard(func() { out[g][i][1] = inflector.Singularize(s) }); pk {
+						out[g][i][1] = fmt.Sprintf("\x00PANIC: %v", pv)
+					}
+				}
+			}(g)
+		}
+		close(start)
+		wg.Wait()
+		ob, _ := json.Marshal(out)
+		_ = os.WriteFile(argFile+".out", ob, 0o644)
+	})
+}
+
+// runFirstUse: fresh child processes (the -race build when the check runs under the race detector) in which the first
+// calls ever made to the inflector are concurrent; every goroutine's answers must equal this process's sequential ones,
+// no call may panic, and the child's race detector must stay silent.
+func (p *prop) runFirstUse(c core.Case, w *core.Worker, res *core.Result) {
+	var pa map[string]int
+	c.Decode(&pa)
+	r := rand.New(rand.NewSource(c.Seed))
+	var inputs []string
+	for _, o := range ops {
+		for _, w0 := range o.irr {
+			inputs = append(inputs, w0, "old "+w0)
+		}
+	}
+	inputs = append(inputs, uninflectedWords...)
+	inputs = append(inputs, "status", "quiz", "ox", "bus", "box", "category", "wolf", "matrix", "analysis", "user_id", "News", "")
+	r.Shuffle(len(inputs), func(i, j int) { inputs[i], inputs[j] = inputs[j], inputs[i] })
+	if len(inputs) > 160 {
+		inputs = inputs[:160]
+	}
+	here := inflectAll(inputs)
+	for child := 0; child < pa["children"]; child++ {
+		argFile := filepath.Join(w.Scratch, fmt.Sprintf("c20first-%d-%d.json", c.ID, child))
+		ib, _ := json.Marshal(firstUseArg{Procs: pa["procs"], G: pa["g"], Inputs: inputs})
+		_ = os.WriteFile(argFile, ib, 0o644)
+		cmd := exec.Command(os.Getenv("VERIF_EXE"), "-helper", "c20first", argFile)
+		cmd.Env = append(os.Environ(), "GORACE=halt_on_error=0")
+		ob, err := cmd.CombinedOutput()
+		res.Inc("first_use_child_processes")
+		if n := strings.Count(string(ob), "WARNING: DATA RACE"); n > 0 {
+			res.Fail("data-race", "first use", fmt.Sprintf("the race detector reported %d data race(s) in a process whose first inflector calls were concurrent (%d goroutines, GOMAXPROCS %d):\n%s", n, pa["g"], pa["procs"], clipS(string(ob), 3000)), nil)
+			res.Count("first_use_race_reports", int64(n))
+		} else if err != nil {
+			if _, statErr := os.Stat(argFile + ".out"); statErr != nil {
+				res.Fail("first-use-crash", "first use", fmt.Sprintf("the child process died before writing its results: %v\n%s", err, clipS(string(ob), 3000)), nil)
+				continue
+			}
+		}
+		var there [][][2]string
+		tb, _ := os.ReadFile(argFile + ".out")
+		os.Remove(argFile)
+		os.Remove(argFile + ".out")
+		if err := json.Unmarshal(tb, &there); err != nil || len(there) != pa["g"] {
+			res.Inconclusive = append(res.Inconclusive, "first-use helper output unreadable: "+clipS(string(ob), 500))
+			return
+		}
+		for g := range there {
+			for i, s := range inputs {
+				res.Evals++
+				for k := 0; k < 2; k++ {
+					got := there[g][i][k]
+					switch {
+					case strings.HasPrefix(got, "\x00PANIC"):
+						res.Fail("panic", "first use "+ops[k].name, fmt.Sprintf("%s(%q) panicked in a process whose first inflector calls were concurrent: %s", ops[k].name, s, got[1:]), s)
+					case got != here[i][k]:
+						res.Fail("same-result-concurrently", "first use "+ops[k].name, fmt.Sprintf("%s(%q) = %q in goroutine %d of a process whose first inflector calls were concurrent, %q sequentially", ops[k].name, s, got, g, here[i][k]), s)
+					}
+				}
+			}
+		}
+		res.NonTrivial(fmt.Sprintf("first-use|%d|%d|%d|%d", c.Seed, child, pa["procs"], pa["g"]))
+		res.Count("first_use_results_compared", int64(2*len(inputs)*len(there)))
+	}
+}
+
+func clipS(s string, n int) string {
+	if len(s) <= n {
+		return s
+	}
+	return s[:n] + "…"
+}
+
 func (p *prop) runOrder(c core.Case, w *core.Worker, res *core.Result) {
 	r := rand.New(rand.NewSource(c.Seed))
 	var inputs []string
@@ -557,6 +682,8 @@ func (p *prop) Run(c core.Case, w *core.Worker) core.Result {
 		p.runConcurrent(c, &res)
 	case "order":
 		p.runOrder(c, w, &res)
+	case "first-use":
+		p.runFirstUse(c, w, &res)
 	}
 	return res
 }
